@@ -89,7 +89,8 @@ Print Assumptions parse_fuel_sufficient.
 (* print_parse_roundtrip: the printed text of every well-formed expression tree of the fragment,
    in either whitespace mode, is read back (ECMA-262 lexer, then ECMA-262 expression parser) as the
    same tree up to norm.  [lexok] is the one lexical side condition of render_lex: the operand of a
-   prefix ++/-- does not start with a number or a regular expression. *)
+   prefix ++/-- does not start with a regular expression (the specification lexer chooses the
+   division goal after ++/--; "++/re/.x" is valid JavaScript outside the fragment). *)
 Theorem print_parse_roundtrip : forall mw fi ss e, wf e -> lexok e -> parse_text fi (print_expr mw fi ss e) = Some (norm e).
 Proof. exact print_parse_roundtrip_concrete. Qed.
 Print Assumptions print_parse_roundtrip.
@@ -109,10 +110,10 @@ Theorem print_stmt_roundtrip : forall mw e, wf e -> lexok e -> parse_stmt_text (
 Proof. exact print_stmt_roundtrip_all. Qed.
 Print Assumptions print_stmt_roundtrip.
 
-(* the head of a for loop has the same restriction.  js_printer prints a for-loop initialiser with
-   stmtStart off (known finding C13-D10, proposed fix fixes/C13-let-bracket-for-head.diff), so for the code
-   as it is the statement is refuted (Examples.v: for_head_let_refuted); with the guard on it holds: *)
-Theorem print_for_head_roundtrip_if_guarded : forall mw e, wf e -> lexok e ->
+(* the head of a for loop has the same restriction (14.7.4), and since fix 177d11f (finding C13-D10) the printer
+   applies the same guard there: the initialiser of a for loop, printed with forbidIn, is read back as the first
+   expression of a for head, with [~In], as the same tree *)
+Theorem print_for_head_roundtrip : forall mw e, wf e -> lexok e ->
   parse_for_head_text (print_expr mw true true e) = Some (norm e).
 Proof. exact print_for_head_roundtrip_guarded. Qed.
-Print Assumptions print_for_head_roundtrip_if_guarded.
+Print Assumptions print_for_head_roundtrip.
